@@ -6,6 +6,11 @@ PY = "/venv/bin/python"
 
 CHECKS = {
     # id: (engine, category, technique, text, note, design_ref)
+    "C01": ("E1-choice", "exploration",
+            "exhaustive enumeration of mode strings x stacks x sizes x index forms x access histories against a per-item specification",
+            "Every mode string of length <=3 (quick) / <=4 (thorough) over {x, class, a, b, index, ctx.ka, ctx.kb} (stated domain), with and without context, on ten wrapper stacks (identity wrappers, fused-operation wrappers with 2- and 3-member groups, two disjoint groups, nested fused wrappers, TorchWrapper) and three shipped fused stacks, for every dataset size 1..3(4) and every int index in [-n,n): position-by-position values, bare-vs-tuple shape, context presence and exact key set (samples record different keys, so a stale context is visible), joint loading of declared groups (shared nonce). Slices, index lists, iteration, len against list semantics, and every access sequence of length <=3 on one object.",
+            "Trusted: harness datasets/wrappers and the per-item specification in kdverif/props/c01.py. Out-of-range indices are outside the claim.",
+            "DESIGN.md section 5 C01"),
     "C02": ("E1-choice", "exploration",
             "exhaustive enumeration of all stack specs up to a node bound, each checked against a Python-list reference model on every index",
             "All nestings with <=4 (quick) / <=5 (thorough) nodes of KDSubset (every index list of length <=2 over [-L,L) plus identity/reversed/duplicating), KDConcatDataset (1-3 parts, balanced sampling), identity KDWrappers and three shipped subset wrappers over bases of size 0..3: every index in [-len,len) and every item is compared with the composed list model, bulk accessors and the getall utilities with the per-sample accessors, and through linear chains every introspection query (root, wrapper lists/lookups, attribute and shape delegation, dispose / with).",
